@@ -1,2 +1,43 @@
-(** Theorems for C07: filled in below as the proofs land. *)
-From JL Require Import Base.Json.
+(** * C07: == and != implement ECMAScript abstract equality on JSON values.
+    Statements only; proofs are in Proofs/Compare.v.  The hypothesis is the scanner lemma of
+    Proofs/Scan.v (str_to_number recognises exactly the StringNumericLiteral grammar). *)
+From Coq Require Import List Bool.
+From JL Require Import Base.Json Base.Dec2Flt Base.Monad Model.JsOp Model.Ops Spec.Specs Proofs.Compare.
+From Coq Require Import String NArith ZArith.
+Local Open Scope string_scope.
+Import ListNotations.
+
+Theorem C07_eq_partial :
+  (forall s, str_to_number s = es_str_to_number s) -> forall a b, abstract_eq a b = es_eq a b.
+Proof. exact abstract_eq_spec. Qed.
+Print Assumptions C07_eq_partial.
+
+Theorem C07_ne_partial :
+  (forall s, str_to_number s = es_str_to_number s) -> forall a b, abstract_ne a b = negb (es_eq a b).
+Proof. exact abstract_ne_spec. Qed.
+Print Assumptions C07_ne_partial.
+
+(** the specification relation is symmetric (no hypothesis) *)
+Theorem C07_symmetric : forall a b, es_eq a b = es_eq b a.
+Proof. exact es_eq_sym. Qed.
+Print Assumptions C07_symmetric.
+
+(** arrays and objects are never equal to one another; null equals only null *)
+Theorem C07_containers_and_null :
+  (forall a b, is_container a = true -> is_container b = true -> es_eq a b = false) /\
+  (forall b, es_eq Null b = match b with Null => true | _ => false end).
+Proof.
+  split.
+  - intros a b Ha Hb. unfold es_eq. rewrite Ha, Hb. reflexivity.
+  - intros b. destruct b; reflexivity.
+Qed.
+Print Assumptions C07_containers_and_null.
+
+Example C07_nonvacuous :
+  es_eq (Str (lit " 1 ")) (Num (PosInt 1%N)) = true /\
+  es_eq (Str (lit "0x10")) (Num (PosInt 16%N)) = true /\
+  es_eq (Str (lit "inf")) (Num (PosInt 1%N)) = false /\
+  es_eq (Arr [Num (PosInt 1%N)]) (Num (PosInt 1%N)) = true /\
+  es_eq (Arr []) (Arr []) = false /\
+  es_eq (Bool true) (Str (lit "1")) = true.
+Proof. vm_compute. repeat split. Qed.
